@@ -41,9 +41,11 @@ func c11Replay(nMsgs, nSubs int, buffer int64, preSub bool) {
 			consume(i, ch)
 		}()
 	}
+	batch := make([]*message.Message, 1) // the publisher re-uses its argument slice from call to call
 	for k := 0; k < nMsgs; k++ {
 		m := newMsg(k)
-		vrt.Assert(g.Publish("t", m) == nil, "publish succeeds")
+		batch[0] = m
+		vrt.Assert(g.Publish("t", batch...) == nil, "publish succeeds")
 		m.UUID = "reused-by-publisher" // the persisted history must not depend on what the publisher does with its object afterwards
 	}
 	vrt.AtQuiescence(func() {
